@@ -292,11 +292,10 @@ fn run_parts(ctx: &mut Ctx) {
                     let r = std::panic::catch_unwind(|| f(w, h));
                     match r {
                         Ok(p) => {
-                            // 0 or 1 mean "do not split"; more parts than rows/columns can never be honoured
+                            // any value is harmless (0 or 1 mean "do not split", a count the view cannot honour makes the
+                            // split return None and the call falls back to one band): the property only forbids the panic
                             if w > 0 && h > 0 && p > extent {
-                                if viols.len() < 3 {
-                                    viols.push(Viol::new("band_count_out_of_range", format!("max_{}_parts({}, {}) = {} (extent {})", name, w, h, p, extent)).sig(json!({"fn": name})));
-                                }
+                                stats.count("band_counts_beyond_extent", 1);
                             }
                             if w as u64 * h as u64 > u32::MAX as u64 {
                                 stats.count("pairs_with_area_beyond_u32", 1);
